@@ -284,7 +284,18 @@ def main(prop, argv=None):
     if run.replay:
         return replay(run, prop)
     units = build_units(prop, run.tier, run.seed, run.scale, run.findings)
+    crash_units = []
+    if prop == "C10":
+        # non-gating crash-point observations (DESIGN 2.4)
+        rc = random.Random(core.derive(run.seed, prop, "crash"))
+        for i in rc.sample(range(N_SCEN), scaled(
+                150 if run.tier == "quick" else 1200, run.scale)):
+            crash_units.append({"kind": "crash", "idx": i,
+                                "hash_class": hash_class_of(i),
+                                "phase": rc.choice(["before", "between"]),
+                                "at": rc.randint(1, 4)})
     with core.Pool(WORLD, run.nproc) as pool:
+        crash_obs = pool.map(crash_units)
         results = pool.map(units)
         stats: dict = {}
         faults = {"duplicate_deliveries": 0, "multi_process_histories": 0,
@@ -378,6 +389,35 @@ def main(prop, argv=None):
                    "detail": [e for e in mr["errs"][prop]][:5]}
             run.violation({"scenario": sid, "violation_class": cls},
                           f"{sid}: {cls}: {detail[:200]}", pay)
+    observations = None
+    if crash_units:
+        ok = [o for o in crash_obs if o.get("status") == "ok"]
+        crashed = [o for o in ok if o.get("crashed")]
+        observations = {
+            "what": "NOT a verdict of C10: an ingest process is killed at a "
+                    "seeded flush (before the batch commit, or between the "
+                    "commit of the nodes and of their associations) and a "
+                    "second process ingests the same stream again; reported "
+                    "is whether the store then equals the first-wins model",
+            "histories": len(crash_obs),
+            "process_killed": len(crashed),
+            "killed_before_commit": sum(o["phase"] == "before"
+                                        for o in crashed),
+            "killed_between_node_and_link_commit": sum(
+                o["phase"] == "between" for o in crashed),
+            "store_consistent_after_recovery": sum(
+                bool(o.get("consistent")) for o in crashed),
+            "recovery_lost_links": sum(
+                1 for o in crashed if o.get("lost_links")),
+            "recovery_process_failed": sum(
+                1 for o in crashed if o.get("recovery") != "ok"),
+            "by_phase_inconsistent": {
+                ph: sum(1 for o in crashed if o["phase"] == ph
+                        and not o.get("consistent"))
+                for ph in ("before", "between")},
+            "example_inconsistent": next(
+                (o for o in crashed if not o.get("consistent")), None),
+        }
     cov = {
         "evaluations": len(units),
         "distinct_nontrivial": len(distinct),
@@ -400,6 +440,10 @@ def main(prop, argv=None):
         "simulated_time_ns": ws.HORIZON * len(units),
         "seeds": {"VERIF_SEED": run.seed, "scenario_salt": ws.SCEN_SALT},
     }
+    if observations:
+        cov["observations"] = observations
+        cov["faults_fired"]["process_killed_mid_run_non_gating"] = \
+            observations["process_killed"]
     run.finish(cov, ASSUMPTIONS)
 
 
